@@ -215,7 +215,8 @@ func NewReader(filename string) (*Reader, error) {
 				hostSize = 16
 			}
 			hostCount := int(hg.Count) + 1
-			hosts = hosts[hg.Start:][:hostSize*hostCount]
+			// Start counts hosts, not bytes
+			hosts = hosts[int(hg.Start)*hostSize:][:hostSize*hostCount]
 			r.hostGroups = append(r.hostGroups, readerHostGroup{
 				hostCount: hostCount,
 				hostSize:  hostSize,
